@@ -38,6 +38,11 @@ def make_case(rc):
     title = rc.get('title', 'S')
     if kind == 'constant':
         cells = {'A1': text, 'B2': 5}
+        if 'title' in rc:
+            # a sheet title can reach the generated code through any translator that mentions where it is: formulas of several families sit
+            # on the titled sheet (none of them refers to the text cell)
+            cells.update({'D1': '=SUMIFS(B2:B3,B2:B3,">0")', 'D2': '=COUNTIFS(B2:B3,">0")', 'D3': '=AVERAGEIFS(B2:B3,B2:B3,">0")', 'D4': '=SUMIF(B2:B3,">0")',
+                          'D5': '=VLOOKUP(5,B2:C3,1,FALSE)', 'D6': '=IF(B2>1,"y","n")', 'D7': '=SUM(B2:B3)+COLUMN()', 'D8': '=IFERROR(B2/0,"e")', 'D9': '=ADDRESS(1,2)'})
         uid = '_0_0_0'
     elif kind == 'formula':
         cells = {'A1': '="%s"' % text, 'B2': 5}
@@ -72,9 +77,11 @@ def make_case(rc):
             try:
                 tree = ast.parse(src)
             except SyntaxError:
-                tree = None      # not loadable: nothing can execute (C06 decides loadability)
+                tree = None      # not loadable: nothing can execute (C06 decides loadability in general)
                 if kind.startswith('concat'):
                     fail = 'the module generated for two joined string literals cannot be loaded (SyntaxError)'
+                elif 'title' in rc:
+                    fail = 'the module generated for a workbook whose sheet title is %r cannot be loaded (SyntaxError): the title left its quotes' % (title,)
 
             if tree is not None:
                 if 'zzcanary' in idents(tree):
@@ -86,6 +93,9 @@ def make_case(rc):
                         got = I.outcome(lambda: e.get_cell(I.Cell(0, int(uid.split('_')[2]), int(uid.split('_')[3]))).value)
                         if got[0] == 'ok' and isinstance(got[1], str):
                             value = got[1]
+                        if 'title' in rc and kind == 'constant':
+                            for r_ in range(9):
+                                I.outcome(lambda: e.get_cell(I.Cell(0, 3, r_)).value)       # run the formulas of the titled sheet too
                         if MARK:
                             fail = 'code taken from the workbook was executed while loading / evaluating the class'
                         elif kind == 'constant' and got != ('ok', text):
